@@ -76,6 +76,13 @@ def run_scenario(sc, strategy=None, race=False):
         for pname in spec.get('nopoll', ()):
             body[pname] = Parameter(pname, FloatRange(), default=0)
             body['read_' + pname] = nopoll(lambda self, mi=mi, pname=pname: act(mi, 'read_' + pname, [(0, 'ok')]))
+        # a poll interval kept in the hardware: read_pollinterval is polled like any other parameter and may fail -
+        # a failed read leaves the interval in use as it was
+        if spec.get('pi_read'):
+            def read_pollinterval(self, mi=mi, script=spec['pi_read']):
+                act(mi, 'read_pollinterval', script)
+                return self.pollinterval
+            body['read_pollinterval'] = read_pollinterval
         # constants (given in the class or in the configuration) that have a read function all the same: a constant
         # is never read from the hardware, whatever its value (0 and other falsy constants included)
         for pname, (cv, where) in spec.get('consts', {}).items():
@@ -162,6 +169,11 @@ def run_scenario(sc, strategy=None, race=False):
                     m.setFastPoll(bool(arg[0]), arg[1] * TICK)
                 elif action == 'interval':
                     m.pollinterval = arg * TICK      # Readable: parameter with callback -> update_interval
+                elif action == 'pierr':
+                    # the driver reports a failed read of the pollinterval parameter itself (a poll interval kept in the
+                    # hardware): an error state of that parameter - the interval in use stays, nothing else happens
+                    from frappy.errors import HardwareError as HE
+                    m.announceUpdate('pollinterval', None, HE('scripted') if arg else ValueError('scripted'))
                 elif action == 'trigger':
                     if m.pollInfo:
                         m.pollInfo.trigger(bool(arg))
